@@ -3,6 +3,7 @@ package codegen
 import (
 	"fmt"
 	"log"
+	"math"
 	"strconv"
 )
 
@@ -53,6 +54,10 @@ func handleRESB(args []string, params x86genParams, ctx *CodeGenContext) []byte 
 	if reserveSize < 0 {
 		log.Printf("Error: RESB size cannot be negative (%d).", reserveSize)
 		return nil // またはエラーを返す
+	}
+	if reserveSize > math.MaxInt32 {
+		log.Printf("Error: RESB size %d is out of range.", reserveSize)
+		return nil
 	}
 
 	// 指定されたサイズの 0 バイトスライスを作成して返します
